@@ -492,7 +492,10 @@ class Executor:
             return BoundMethod(obj, ('concrete', attr), attr)
         # real python object (module, class, constant)
         try:
-            return getattr(obj, attr)
+            v = getattr(obj, attr)
+            if isinstance(v, (list, dict, set)) and isinstance(obj, (types.ModuleType, type)):
+                self.param_container(v, 'global')       # module-/class-level mutable state
+            return v
         except AttributeError:
             raise SymRaise(AttributeError, (f'{obj!r}.{attr}',), origin=self.where(node))
 
@@ -986,7 +989,10 @@ class Executor:
             pass
         m = env.module
         if m is not None and hasattr(m, e.id):
-            return getattr(m, e.id)
+            v = getattr(m, e.id)
+            if isinstance(v, (list, dict, set)):
+                self.param_container(v, 'global')       # module-level mutable state
+            return v
         if hasattr(builtins, e.id):
             return getattr(builtins, e.id)
         raise SymRaise(NameError, (e.id,), origin=self.where(e))
